@@ -236,6 +236,27 @@ def unchanged(sched, snap):
     return AND(*terms)
 
 
+def only_delays_appended(sched, snap):
+    """Region of finding F9 at scheduler level: everything is unchanged
+    except plain delay slot(s) appended to a channel."""
+    terms = []
+    for name, cs in sched.items():
+        old_slots, old_blocks = snap[name]
+        if len(cs.slots) < len(old_slots) or not all(a is b for a, b in zip(cs.slots, old_slots)):
+            return False
+        if any(s.type != "delay" for s in cs.slots[len(old_slots):]):
+            return False
+        if len(cs.eom_blocks) != len(old_blocks):
+            return False
+        for b, ob in zip(cs.eom_blocks, old_blocks):
+            if (b.tf is None) != (ob[1] is None):
+                return False
+            if b.tf is not None:
+                terms.append(b.tf == ob[1])
+            terms.append(b.ti == ob[0])
+    return AND(*terms) if terms else True
+
+
 def ref_duration_with_fall(cs):
     """Reference for get_duration(include_fall_time=True): the later of the
     end of the last slot and the end of the last pulse's fall (computed, as
@@ -309,6 +330,7 @@ def step_harness(shape):
 
         if raised is not None:
             obs.append(("c09:raise_unchanged", unchanged(sched, snap)))
+            inp.publish("l1_only_delays_left_behind", only_delays_appended(sched, snap))
             # a refusal must have a cause: delays below min / above max, or
             # the sequence would exceed the device's maximum duration
             obs.append(("c01:refusal_has_cause", refusal_cause(inp, sched, shape, old, op, t0, locals())))
